@@ -264,7 +264,7 @@ static void parsec_ioa_resize_and_rdlock(parsec_info_object_array_t *oa, parsec_
             ns = oa->infos->max_id + 1;
             if(oa->known_infos > 0) {
                 oa->info_objects = realloc(oa->info_objects, sizeof(void *) * ns);
-                memset(&oa->info_objects[oa->known_infos - 1], 0, ns - oa->known_infos);
+                memset(&oa->info_objects[oa->known_infos], 0, sizeof(void *) * (ns - oa->known_infos));
             } else {
                 oa->info_objects = calloc(ns, sizeof(void*));
             }
